@@ -14,7 +14,21 @@ import (
 func isGhostKey(key string) bool { return strings.HasPrefix(key, "F:") && strings.Contains(key, ".g_") }
 
 // ghostKeyOf returns the heap key of a declared ghost field.
-func ghostKeyOf(g *GhostField) string { return "F:" + g.Struct + "." + g.Name + ":0" }
+func ghostKeyOf(g *GhostField) string {
+	if g.Struct == "" {
+		return "F:ghost.g_" + g.Name + ":0"
+	}
+	return "F:" + g.Struct + "." + g.Name + ":0"
+}
+
+func (P *Program) ghostGlobal(name string) *GhostField {
+	for i := range P.specs.Ghosts {
+		if g := &P.specs.Ghosts[i]; g.Struct == "" && g.Name == name {
+			return g
+		}
+	}
+	return nil
+}
 
 // ghostWriters: functions whose contract has a ghost-effect assigning the field.
 func (P *Program) ghostWriters(g *GhostField) map[*ssa.Function]bool {
@@ -30,8 +44,15 @@ func (P *Program) ghostWriters(g *GhostField) map[*ssa.Function]bool {
 	m := map[*ssa.Function]bool{}
 	for _, c := range P.specs.ByKey {
 		for _, cl := range c.get("ghost-effect") {
-			if strings.Contains(strings.SplitN(cl.Text, "=", 2)[0], "."+g.Name) {
-				if fn := P.findFunc(c.Pkg, c.Key); fn != nil {
+			lhs := strings.SplitN(cl.Text, "=", 2)[0]
+			if strings.Contains(lhs, "."+g.Name) || (g.Struct == "" && strings.Contains(lhs, g.Name+"[")) {
+				if c.Extern {
+					for fn := range P.allFuncs {
+						if fn.String() == c.Key {
+							m[fn] = true
+						}
+					}
+				} else if fn := P.findFunc(c.Pkg, c.Key); fn != nil {
 					m[fn] = true
 				}
 			}
@@ -157,6 +178,11 @@ func (e *Engine) touchGhosts(st *State) {
 
 // applyGhostEffects executes the ghost-effect clauses of con in st (params bound in env).
 func (e *Engine) applyGhostEffects(st *State, con *Contract, env *SpecEnv) {
+	e.applyGhostEffectsOld(st, st, con, env)
+}
+
+// applyGhostEffectsOld: right-hand sides may use old(...) (the state before the call).
+func (e *Engine) applyGhostEffectsOld(st, old *State, con *Contract, env *SpecEnv) {
 	for _, cl := range con.get("ghost-effect") {
 		parts := strings.SplitN(cl.Text, "=", 2)
 		if len(parts) != 2 {
@@ -169,12 +195,29 @@ func (e *Engine) applyGhostEffects(st *State, con *Contract, env *SpecEnv) {
 			e.specErr("ghost-effect: %v %v", err1, err2)
 			continue
 		}
-		sel, ok := lhs.(SSel)
-		if !ok {
-			e.specErr("ghost-effect lhs must be x.g_field")
+		if ix, ok := lhs.(SIndex); ok {
+			id, ok2 := ix.X.(SIdent)
+			var g *GhostField
+			if ok2 {
+				g = e.P.ghostGlobal(id.Name)
+			}
+			if g == nil {
+				e.specErr("ghost-effect: unknown ghost global in %s", cl.Text)
+				continue
+			}
+			idx := e.evalSpec(st, old, ix.I, env)
+			v := e.coerceTo(e.evalSpec(st, old, rhs, env), types.Typ[types.Int])
+			key := ghostKeyOf(g)
+			arr := e.heapGet(st, key, "(Array Int (_ BitVec 64))")
+			st.heap[key] = sto(arr, idx.T, v.T)
 			continue
 		}
-		base := e.evalSpec(st, st, sel.X, env)
+		sel, ok := lhs.(SSel)
+		if !ok {
+			e.specErr("ghost-effect lhs must be x.g_field or NAME[expr]")
+			continue
+		}
+		base := e.evalSpec(st, old, sel.X, env)
 		pt := e.pointee(base.Ty)
 		if base.K != KPtr || pt == nil {
 			e.specErr("ghost-effect base is not a pointer")
@@ -185,7 +228,7 @@ func (e *Engine) applyGhostEffects(st *State, con *Contract, env *SpecEnv) {
 			e.specErr("unknown ghost field %s", sel.Name)
 			continue
 		}
-		v := e.evalSpec(st, st, rhs, env)
+		v := e.evalSpec(st, old, rhs, env)
 		t := e.resolveType(g.Type, &SpecEnv{})
 		if t != nil {
 			v = e.coerceTo(v, t)
